@@ -10,7 +10,7 @@
     C14_control_grid_covers C14_control_grid_minimal C14_coverage
     C14_subdivide_poly C14_subdivide_same_function C14_subdivide_iterate
     C14_ffd_refine_shape C14_ffd_refine_same_function
-    C14_control_grid_as_coded C14_control_grid_placement_refuted C14_control_grid_placement_partial
+    C14_control_grid_placement C14_subdivide_api_1d C14_ffd_refine_api_1d
 -/
 import Deepali.Proofs.BSplineAgree
 import Deepali.Proofs.BSplineGrid
@@ -211,66 +211,66 @@ theorem C14_ffd_refine_same_function (m s : Nat) (hs : 1 ≤ s) (hm : 1 ≤ m) (
 
 example : ([1, 2, 0, -1, 3, 5] : List ℚ).length = ctrlSize 7 3 := by decide
 
+/-- D = 1 through the API: `subdivide_cubic_bspline` on an `(N, C, X)` tensor succeeds (X ≥ 2) and is
+    `subdivide1d` on every line, so `C14_subdivide_same_function`/`_iterate` apply to each of them. -/
+theorem C14_subdivide_api_1d (t : Tensor K) (N C L : Nat) (hsh : t.shape = [N, C, L]) (hL : 2 ≤ L) :
+    subdivideCubicBSpline t [0] = .ok (t.mapAxis subdivide1d 2) :=
+  subdivide_api_1d t N C L hsh hL
+
+/-- D = 1 through the API: `BSplineTransform.grid_` for image size `m → 2m − 1` succeeds on parameters
+    of the control size and is `ffdRefine1d` (subdivide, then `narrow(dim, 1, …)`) on every line, so
+    `C14_ffd_refine_same_function` applies to each of them. -/
+theorem C14_ffd_refine_api_1d (t : Tensor K) (N C m s : Nat) (hs : 1 ≤ s) (hm : 1 ≤ m)
+    (hsh : t.shape = [N, C, ctrlSize m s]) :
+    ffdGridRefine t [m] [2 * m - 1] [s]
+      = .ok ((t.mapAxis subdivide1d 2).mapAxis (fun c => (c.drop 1).take (ctrlSize (2 * m - 1) s)) 2) :=
+  ffd_refine_api_1d t N C m s hs hm hsh
+
 end Deepali
 
 /-! ### control point grid placement (`cubic_bspline_control_point_grid`) -/
 namespace Deepali
 variable {K : Type} [Field K] [LinearOrder K] [IsStrictOrderedRing K] [FloorRing K] {d : Nat}
 
-/-- as coded: control index `j` of the returned grid is at image index `j − s`. -/
-theorem C14_control_grid_as_coded (g : Grid d K) (m s : Fin d → Nat) (j : Vec d K) :
-    (controlPointGrid g m s).applyTransform .grid .world false j
-      = g.applyTransform .grid .world false (fun i => j i - ((s i : Nat) : K)) :=
-  controlPointGrid_index_to_world g m s j
-
-/-- what the evaluation assumes (one control point before the image, control point `j` at image
-    index `(j − 1)·s`). -/
-def C14_control_grid_placement_Statement : Prop :=
-  ∀ (g : Grid 1 ℚ) (m s : Fin 1 → Nat), g.Valid → (∀ i, 1 ≤ s i) → ∀ j : Vec 1 ℚ,
-    (controlPointGrid g m s).applyTransform .grid .world false j
-      = g.applyTransform .grid .world false (fun i => (j i - 1) * ((s i : Nat) : ℚ))
-
-/-- 4 samples, unit spacing, origin 0. -/
-def unitGrid1 : Grid 1 ℚ := ⟨![4], ![3 / 2], ![1], ![![1]], true⟩
-
-theorem unitGrid1_size : unitGrid1.sizeTensor = ![4] := by
-  funext i; fin_cases i; simp [Grid.sizeTensor, unitGrid1, HasFloor.ceil]
-
-theorem unitGrid1_valid : unitGrid1.Valid := by
-  refine ⟨?_, ?_, ?_⟩
-  · intro i; fin_cases i; simp [unitGrid1]
-  · ext i j; fin_cases i; fin_cases j; simp [unitGrid1, Matrix.mul_apply]
-  · intro i; rw [unitGrid1_size]; fin_cases i; simp
-
-theorem unitGrid1_index_to_world (x : Vec 1 ℚ) :
-    unitGrid1.applyTransform .grid .world false x = x := by
-  rw [index_to_world_eq]
-  funext i
-  fin_cases i
-  simp only [Grid.origin, Grid.originOffset, unitGrid1_size]
-  simp [Grid.affine, Mat.mul, Mat.mulVec, Mat.diag, sumFin, Vec.sub, unitGrid1]
-  norm_num
-
-/-- the code violates it for every stride > 1: witness stride 2, control index 1 (which should be
-    the first image sample, world 0) is at world −1. -/
-theorem C14_control_grid_placement_refuted : ¬ C14_control_grid_placement_Statement := by
-  intro h
-  have := h unitGrid1 (fun _ => 4) (fun _ => 2) unitGrid1_valid (fun _ => by norm_num) (fun _ => 1)
-  rw [C14_control_grid_as_coded, unitGrid1_index_to_world, unitGrid1_index_to_world] at this
-  have := congrFun this 0
-  norm_num at this
-
-/-- what does hold: the origin of the control grid is one control spacing before the first
-    sample (image index `−s`), and for stride 1 on every axis the placement is right everywhere. -/
-theorem C14_control_grid_placement_partial (g : Grid d K) (m s : Fin d → Nat) :
-    (controlPointGrid g m s).applyTransform .grid .world false (fun _ => 0)
-        = g.applyTransform .grid .world false (fun i => (0 - 1) * ((s i : Nat) : K)) ∧
-    ((∀ i, s i = 1) → ∀ j : Vec d K,
+/-- placement of the control grid in world space, any dimension, any (even rotated, anisotropic) image
+    grid, any strides ≥ 1: control index `j` lies at image index `(j − 1)·s` (one control point before
+    the first sample, control spacing = `s` samples), and every image position `x ∈ [0, m − 1]` is the
+    image of a control coordinate `j` with one control point before and two after it inside the control
+    grid (`1 ≤ j`, `j + 2 < n`): the control grid covers the image grid. -/
+theorem C14_control_grid_placement (g : Grid d K) (m s : Fin d → Nat) (hs : ∀ i, 1 ≤ s i) :
+    (∀ j : Vec d K,
       (controlPointGrid g m s).applyTransform .grid .world false j
-        = g.applyTransform .grid .world false (fun i => (j i - 1) * ((s i : Nat) : K))) := by
-  refine ⟨?_, ?_⟩
-  · rw [C14_control_grid_as_coded]; congr 1; funext i; ring
-  · intro h1 j
-    rw [C14_control_grid_as_coded]; congr 1; funext i; rw [h1 i]; simp
+        = g.applyTransform .grid .world false (fun i => (j i - 1) * ((s i : Nat) : K))) ∧
+    (∀ x : Vec d K, (∀ i, 0 ≤ x i ∧ x i ≤ ((m i : Nat) : K) - 1) →
+      ∃ j : Vec d K, (∀ i, 1 ≤ j i ∧ j i + 2 < ((ctrlSize (m i) (s i) : Nat) : K)) ∧
+        (controlPointGrid g m s).applyTransform .grid .world false j
+          = g.applyTransform .grid .world false x) := by
+  refine ⟨controlPointGrid_index_to_world g m s, ?_⟩
+  intro x hx
+  have hs0 : ∀ i, (0 : K) < ((s i : Nat) : K) := fun i => by exact_mod_cast hs i
+  refine ⟨fun i => x i / ((s i : Nat) : K) + 1, ?_, ?_⟩
+  · intro i
+    have hc := ctrlSize_covers (m i) (s i) (hs i)
+    obtain ⟨p, hp⟩ : ∃ p, ctrlSize (m i) (s i) = p + 3 := by
+      unfold ctrlSize; split_ifs
+      · exact ⟨_, rfl⟩
+      · exact ⟨(m i) / (s i) + 1, by omega⟩
+    rw [hp, Nat.add_sub_cancel] at hc
+    have hcK : ((m i : Nat) : K) ≤ ((p : Nat) : K) * ((s i : Nat) : K) := by exact_mod_cast hc
+    constructor
+    · have : 0 ≤ x i / ((s i : Nat) : K) := div_nonneg (hx i).1 (le_of_lt (hs0 i))
+      linarith
+    · have : x i / ((s i : Nat) : K) < ((p : Nat) : K) := by
+        rw [div_lt_iff₀ (hs0 i)]; linarith [(hx i).2]
+      rw [hp]; push_cast; linarith
+  · rw [controlPointGrid_index_to_world]
+    congr 1
+    funext i
+    have := ne_of_gt (hs0 i)
+    field_simp
+    ring
+
+example : ∀ i : Fin 2, 1 ≤ (![5, 3] : Fin 2 → Nat) i := by
+  intro i; fin_cases i <;> simp
 
 end Deepali
